@@ -36,6 +36,9 @@ def build_harness(race=False):
     os.makedirs(BUILD, exist_ok=True)
     hdir = os.path.join(VERIF, "harness")
     shutil.copyfile(os.path.join(REPO, "go.sum"), os.path.join(hdir, "go.sum"))
+    if REPO != "/repo":
+        # mutation rehearsal on a scratch copy of the repository (VERIF_REPO): point the harness module at it
+        sh(["go", "mod", "edit", "-replace", "github.com/go-kid/ioc=" + REPO], cwd=hdir, env=GOENV)
     out = os.path.join(BUILD, "harness-race" if race else "harness")
     cmd = ["go", "build", "-tags", "verif"] + (["-race"] if race else []) + ["-o", out, "./cmd/harness"]
     rc, o = sh(cmd, cwd=hdir, env=GOENV, timeout=1200)
